@@ -487,7 +487,10 @@ class Connection:
         COM_STMT_SEND_LONG_DATA sends the data for a column.
         """
         com_stmt_send_long_data = packets.parse_com_stmt_send_long_data(data)
-        stmt = self.get_stmt(com_stmt_send_long_data.stmt_id)
+        # COM_STMT_SEND_LONG_DATA has no response, not even for an unknown statement
+        stmt = self.prepared_stmts.get(com_stmt_send_long_data.stmt_id)
+        if stmt is None:
+            return
         if stmt.param_buffers is None:
             stmt.param_buffers = {}
         buffer = stmt.param_buffers.setdefault(
